@@ -420,6 +420,14 @@ def ite(c, a, b, sort=None):
 
 def equal(a, b):
     """structural == as a z3 Bool (Python semantics for the modelled sorts)."""
+    for x, y in ((a, b), (b, a)):
+        if isinstance(x, VConst) and isinstance(x.py, tuple) and x.py and x.py[0] == 'dtype_kind':
+            from .npmodel import kind_of, KINDS
+            if isinstance(y, VConst) and isinstance(y.py, str) and y.py in KINDS:
+                return kind_of(x.py[1]) == KINDS[y.py]
+            if isinstance(y, VConst) and isinstance(y.py, tuple) and y.py[0] == 'dtype_kind':
+                return kind_of(x.py[1]) == kind_of(y.py[1])
+            raise Unsupported(f'dtype kind compared with {y!r}')
     if isinstance(a, VConst) and isinstance(b, VConst):
         return z3.BoolVal(a.py == b.py)
     if isinstance(a, VConst) or isinstance(b, VConst):
